@@ -475,6 +475,13 @@ fn parse_rp_command(command: &mut std::str::SplitN<&str>) -> Result<Request, Str
         return Err(format!("Invalid replication request str"));
     }
 
+    // The envelope carries one command, never another envelope: every level is processed by a
+    // recursive call, a long enough chain of them overflows the stack of the connection thread
+    let inner = request_str.trim_matches('\n');
+    if inner == "rp" || inner.starts_with("rp ") {
+        return Err(format!("Invalid replication request str"));
+    }
+
     Ok(Request::ReplicateRequest {
         opp_id,
         request_str,
